@@ -23,6 +23,13 @@ def run(seed):
         shutil.rmtree(d, ignore_errors=True)
 seeds = sorted(s for s in os.listdir(os.path.join(V, "seeded")) if re.match(r"C\d+-\d+$", s))
 matrix = {}
+# optional argument: a regex selecting the seeds to (re)run; the other rows of MATRIX.json are kept
+if len(sys.argv) > 1:
+    seeds = [s for s in seeds if re.search(sys.argv[1], s)]
+    try:
+        matrix = json.load(open(os.path.join(V, "seeded", "MATRIX.json")))
+    except Exception:
+        matrix = {}
 with concurrent.futures.ThreadPoolExecutor(max_workers=6) as ex:
     for seed, res in ex.map(run, seeds):
         matrix[seed] = res
@@ -34,6 +41,6 @@ with concurrent.futures.ThreadPoolExecutor(max_workers=6) as ex:
         meta["detected_by_own_property_check"] = own in res
         json.dump(meta, open(mp, "w"), indent=1)
 json.dump(matrix, open(os.path.join(V, "seeded", "MATRIX.json"), "w"), indent=1)
-nd = [s for s, r in matrix.items() if not r]
-no = [s for s, r in matrix.items() if r and s.split("-")[0] not in r]
+nd = [s for s, r in matrix.items() if not r and s in seeds]
+no = [s for s, r in matrix.items() if r and s.split("-")[0] not in r and s in seeds]
 print("seeds: %d, undetected: %s, detected only by another property's check: %s" % (len(matrix), nd, no))
